@@ -682,6 +682,69 @@ def _parsed_owner_clause(res):
                     res.violation('C17.model', f'parsed-list-differs-from-model|parsed-{owner}|{TEXT_CLASS[t]}', case, m.text(), got['text'])
 
 
+# a member of the list is a query object of its own: its text takes one query (probe: judged, not expanded)
+MEMBER_TEXTS = {'tv': 'tv', 'not print': 'not print', 'print and (color)': 'print and (color)', '3d': None, 'tv 3d': None, 'tv, print': None,
+                'tv and (color), print': None, 'tv,': None, '': None}
+
+
+def _member_probe(res, h):
+    guard.pristine()
+    w0, m0 = _build(h)
+    n = m0.length
+    for i in range(n):
+        for text, canon in MEMBER_TEXTS.items():
+            for quiet in (False, True):
+                guard.pristine()
+                case = {'kind': 'member', 'history': h, 'index': i, 'text': text, 'quiet': quiet}
+                res.evaluations += 1
+                res.transitions += 1
+                res.validated += 1
+                res.clauses['C17.member'] += 1
+                with guard.watchdog(10):
+                    w, m = _build(h)
+                    before = (_observe(w.ml()), w.owner_text())
+                    _hidden()
+                    try:
+                        q = w.ml()[i]
+                    except Exception:
+                        continue  # (reading the list is judged by the item clause)
+                    try:
+                        cssutils.log.raiseExceptions = not quiet
+                        q.mediaText = text
+                        out = 'ok'
+                    except xml.dom.DOMException as e:
+                        out = type(e).__name__
+                    except Exception as e:
+                        out = 'crash:' + guard.crash_site(e)
+                    finally:
+                        cssutils.log.raiseExceptions = True
+                    hidden = _hidden()
+                    o, otext = _observe(w.ml()), w.owner_text()
+                    _hidden()
+                strip = lambda ob: {k: v for k, v in ob.items() if k != 'wellformed'}
+                changed = (strip(o), otext) != (strip(before[0]), before[1])
+                cls = 'single-query' if canon else ('list-text' if ',' in text else 'malformed')
+                sig = f'member.mediaText=|{cls}' + ('|log-only' if quiet else '')
+                res.outcomes.add(h64(['member', cls, quiet, out, changed]))
+                if out.startswith('crash'):
+                    res.violation('C17.accept', f'{out[6:]}|{sig}', case, 'accepted or a DOM exception', out)
+                elif quiet:
+                    # log-only mode: the refusal is silent and the wellformed flag of the query (which its serialisation follows) reports
+                    # the last attempt - only the hand-back buffers are judged (as for list texts in that mode)
+                    pass
+                elif canon is None:
+                    if out == 'ok' and not quiet:
+                        res.violation('C17.accept', f'accepted-but-must-be-rejected|{sig}', case, 'a DOM exception', [out, o['text']])
+                    elif changed:
+                        res.violation('C17.reject.unchanged', f'state-changed-by-rejected-operation|{sig}', case, before[0]['text'], o['text'])
+                else:
+                    if out != 'ok':
+                        res.violation('C17.accept', f'rejected-but-must-be-accepted|{out}|{sig}', case, 'accepted', out)
+                    elif isinstance(o['index'], list) and i < len(o['index']) and _nocomment(str(o['index'][i][1])) != canon:
+                        res.violation('C17.model', f'member-text-differs|{sig}', case, canon, o['index'][i])
+                _handback_clause(res, hidden, case, sig)
+
+
 def expand(batch, tier, seed):
     res = Result(seed)
     cap = _cap(tier)
@@ -698,6 +761,8 @@ def expand(batch, tier, seed):
             r = _transition(res, h, op, cap)
             if r is not None:
                 res.succ.append((r[0], h + [op], r[1]))
+        if h:
+            _member_probe(res, h)
     return res
 
 
@@ -1335,6 +1400,13 @@ def replay(case, tier, seed):
         _parsed_owner_clause(full)
         for sig, v in full.violations.items():
             if v['case'] == case:
+                res.violations[sig] = v
+                res.violation_counts[sig] += 1
+    elif k == 'member':
+        full = Result(seed)
+        _member_probe(full, [list(op) for op in case['history']])
+        for sig, v in full.violations.items():
+            if all(v['case'].get(kk) == case.get(kk) for kk in ('index', 'text', 'quiet')):
                 res.violations[sig] = v
                 res.violation_counts[sig] += 1
     elif k == 'list':
